@@ -1,4 +1,5 @@
 """Rules for the remaining properties (registered in REGISTRY at the end)."""
+import os, sys
 import mir as M
 from domain import fin, adt_variants, TOP, BOOL
 from interp import Imprecision
@@ -335,6 +336,36 @@ def bound_sources(A, body, local, depth=0, seen=None):
     return out
 
 
+def bound_sources_deep(A, body, local, g_callers, depth=3, seen=None):
+    """bound_sources with integer parameters followed into the argument expressions of the local callers"""
+    seen = seen if seen is not None else set()
+    out = set()
+    for x in bound_sources(A, body, local):
+        if x[0] != "param" or x[1] == 1 and body.locals[1]["s"].lstrip("&").replace("mut ", "").startswith(A.L.evaluator.split("<")[0]):
+            out.add(x)
+            continue
+        callers = g_callers.get(body.name, [])
+        if (body.name, x[1]) in seen or depth <= 0 or not callers:
+            out.add(x)
+            continue
+        seen.add((body.name, x[1]))
+        for (cb, blk) in callers:
+            t = cb.blocks[blk]["term"]["t"]
+            if x[1] - 1 >= len(t["args"]):
+                continue
+            o = t["args"][x[1] - 1]
+            pl = o.get("copy") or o.get("move")
+            if pl is None:
+                if "const" in o and "fn" not in o:
+                    out.add(("const", o["const"]))
+                continue
+            if pl["p"]:
+                out.add(("place", M.fmt_place(pl)))
+                continue
+            out |= bound_sources_deep(A, cb, pl["l"], g_callers, depth - 1, seen)
+    return out
+
+
 def receiver_local(body, t):
     """the local collection a method is called on: chases `_t = &mut X` / `_t = &X` / copies in the calling block and before"""
     if not t["args"]:
@@ -483,12 +514,13 @@ def check_C19(A, R, tier):
                     sides.append(dict(kind="const", consts={o.get("const")}, calls=set()))
                     continue
                 sl = deep_slice(A, b, pl["l"], cidx)
-                sized = any(c.endswith("::len") or "node_count" in c or "edge_count" in c for c in sl["calls"])
+                # (counting the elements of an iterator is a size too: `jobs.iter().filter(..).count()`)
+                sized = any(c.endswith("::len") or "node_count" in c or "edge_count" in c or (c.endswith("::count") and "Iterator" in c) for c in sl["calls"])
                 if sized:
                     # ... the bound must scale with the number of jobs: lengths of the jobs vector / the id map (what add_node fills)
                     # or the graph's node count, combined with constants only - not the length of a working list that shrinks
                     # while the evaluation proceeds, nor a value chosen by a closure or an unknown call
-                    bs = bound_sources(A, b, pl["l"])
+                    bs = bound_sources_deep(A, b, pl["l"], cidx)
                     bad_src = [x for x in bs if (x[0] == "len" and x[1] not in (A.L.jobs_field, A.L.idmap_field)) or x[0] == "call"]
                     if bad_src:
                         sized = False
@@ -501,6 +533,8 @@ def check_C19(A, R, tier):
                     kind = "other"
                 sides.append(dict(kind=kind, consts=sl["consts"], calls=sl["calls"]))
             ks = sorted(x["kind"] for x in sides)
+            if os.environ.get("VERIF_DBG"):
+                print("R19.2", short(n), ks, sides, shrinking, file=sys.stderr)
             okc = True
             why = ""
             if shrinking and "sized" not in ks:
@@ -519,6 +553,7 @@ def check_C19(A, R, tier):
     # R19.4: a worklist walk over the graph (take an element out of a local collection, put its neighbours in) remembers what it
     # has visited; without that its work is bounded by the number of *paths*, which is exponential in the depth of layered graphs
     n_walk = 0
+    searches = []
     for n in sorted(reach):
         b = A.facts.bodies.get(n)
         if b is None or b.kind == "Promoted" or b.derived:
@@ -561,20 +596,68 @@ def check_C19(A, R, tier):
             errs_ = error_exit_blocks(A, b) | residual_blocks(b)
             early = [(x, s_) for x in loop for s_ in b.succs(x) if s_ not in loop and x not in hdr_exits and s_ not in errs_
                      and b.term(s_)["k"] != "unreachable"]
-            if early:
-                continue
-            n_walk += 1
             # the visited-set test must guard what is put into the worklist: it dominates every put inside the loop
             guarded = bool(marks)
             for l_ in work:
                 for pb in puts[l_]:
                     if not any(b.dominates(mb["i"], pb["i"]) for mb in marks):
                         guarded = False
+            if early:
+                if not guarded:
+                    searches.append((n, h, takes[work[0]][0]["term"]["span"]["s"].split(": ")[0]))
+                continue
+            n_walk += 1
             R.ob("R19.4", "%s | worklist walk over graph neighbours (loop bb%d) | keeps a set of visited jobs" % (short(n), h), guarded,
                  detail="every path to a job is walked separately: in a layered graph (each job depending on several jobs of the previous "
                         "layer) the walk takes time exponential in the number of layers - a few dozen jobs are enough to hang the evaluation",
                  site=takes[work[0]][0]["term"]["span"]["s"].split(": ")[0])
     R.info["worklist_walks"] = n_walk
+    # ... a *search* without a visited set ends early only because of what the graph looks like: below every Ephemeral that is
+    # still in the graph there is a job of another kind (what the pruning at startup establishes), so the first path walked down
+    # ends the search.  It therefore may not run before the pruning is complete: neither from the pruning itself nor in front of it.
+    removers = set(n for n in g if any((M.callee_of(blk["term"]["t"]) or ("",))[0].endswith("::remove_node")
+                                       for blk in (A.facts.bodies[n].blocks if n in A.facts.bodies else [])
+                                       if not blk["cleanup"] and blk["term"]["t"]["k"] == "call"))
+    R.info["graph_pruning_functions"] = sorted(short(x) for x in removers)
+    for (wn, h, site) in searches:
+        reaches_w = set(x for x in g if wn in reachable_from(g, [x]))
+        reaches_p = set(x for x in g if removers & reachable_from(g, [x]))
+        bad = []
+        for pf in sorted(removers):
+            if pf in reaches_w:
+                bad.append("%s takes jobs out of the graph and runs the search while doing so" % short(pf))
+        for fn_ in sorted(reaches_w & reaches_p):
+            fb = A.facts.bodies.get(fn_)
+            if fb is None or fn_ in removers:
+                continue
+            ws, ps = [], []
+            for blk in fb.blocks:
+                t = blk["term"]["t"]
+                if blk["cleanup"] or t["k"] != "call":
+                    continue
+                c = M.callee_of(t)
+                tgt = set()
+                if c is not None:
+                    tgt = set(x for x in g.get(fn_, ()) if x in ((c[1] or c[0]), c[0]))
+                    # closures / fn items passed as arguments run inside the call
+                    for a_ in t["args"]:
+                        if "const" in a_ and "fn" in a_:
+                            tgt.add(a_.get("resolved") or a_["fn"])
+                if any(x in reaches_w or x == wn for x in tgt):
+                    ws.append(blk["i"])
+                if any(x in reaches_p for x in tgt):
+                    ps.append(blk["i"])
+            for w_ in ws:
+                for p_ in ps:
+                    if w_ == p_:
+                        continue        # one call that does both: the order is decided (and judged) in the callee
+                    if not fb.dominates(p_, w_) or p_ in fb.reachable(w_, set()):
+                        bad.append("%s can run the search (bb%d) before the pruning (bb%d) is complete" % (short(fn_), w_, p_))
+        R.ob("R19.4", "%s | search over graph neighbours without a visited set (loop bb%d) | runs only after unconsumed Ephemerals were pruned"
+             % (short(wn), h), not bad and bool(removers),
+             detail="; ".join(bad[:3]) or "no function that takes jobs out of the graph was found",
+             site=site)
+    R.info["unguarded_searches"] = len(searches)
     # R19.5: no constant cut-off on how much of a graph-sized collection is looked at
     n_cut = 0
     CUTS = ("std::iter::Iterator::take", "std::iter::Iterator::skip", "std::iter::Iterator::step_by", "std::iter::Iterator::nth",
